@@ -235,8 +235,9 @@ RootKid == [c |-> "root", k |-> "", r |-> 1, d |-> "", dk |-> "", soft |-> TRUE]
 (*          (seq) or <<key, node id>> pairs (map; keys are plain strings)  *)
 (*   rs   : [ns, rep, busy, err, fx]   ns the node heap, rep = represented *)
 (*          _objects (object -> node, 0 = absent), busy = objects exempt   *)
-(*          from aliasing that are being represented (to see the infinite  *)
-(*          recursion of deviation "emptytuple" instead of performing it)  *)
+(*          from aliasing that are being represented, with the number of   *)
+(*          registered objects at entry (to see the infinite recursion of  *)
+(*          deviation "emptytuple" instead of performing it)               *)
 (* A node is registered in rep when it is created, before its children     *)
 (* (represent_sequence / represent_mapping), which is what makes cycles    *)
 (* representable.                                                          *)
@@ -296,14 +297,17 @@ RepReduce(rs, g, rd, owner) ==
                   \o (IF rd.li # <<>> THEN << <<"listitems", VL(rd.li)>> >> ELSE <<>>)
                   \o (IF ~nostate THEN << <<"state", state0>> >> ELSE <<>>), owner)
 
+NReg(rs) == Cardinality({j \in DOMAIN rs.rep : rs.rep[j] # 0})
 RepObj(rs, g, i) ==
   LET o == g[i]
       noalias == IgnoreAliases(o, rs.fx)
   IN  IF rs.err # "" THEN <<rs, 0>>
       ELSE IF ~noalias /\ rs.rep[i] # 0 THEN <<rs, rs.rep[i]>>
-      ELSE IF noalias /\ i \in rs.busy THEN <<[rs EXCEPT !.err = "RecursionError"], 0>>
+      \* an object exempt from aliasing is represented again each time it is met; that ends only if an aliased
+      \* object on the way was registered in between
+      ELSE IF noalias /\ rs.busy[i] = NReg(rs) + 1 THEN <<[rs EXCEPT !.err = "RecursionError"], 0>>
       ELSE LET own == IF noalias THEN 0 ELSE i
-               rs0 == IF noalias THEN [rs EXCEPT !.busy = @ \cup {i}] ELSE rs
+               rs0 == IF noalias THEN [rs EXCEPT !.busy[i] = NReg(rs) + 1] ELSE rs
                r == CASE o.s = "list"  -> RepSeq(rs0, g, "seq", "", Atoms(o.p), own)
                       [] o.s = "tuple" -> RepSeq(rs0, g, "tuple", "", Atoms(o.p), own)
                       [] o.s = "dict"  -> RepMap(rs0, g, "map", "", Keyed(o.p), own)
@@ -312,10 +316,10 @@ RepObj(rs, g, i) ==
                       [] o.s = "OD"    -> RepSeq(rs0, g, "apply", "OD",
                                                  <<VL([j \in DOMAIN o.p |-> VL(<<At(Lf(Keys[j])), At(o.p[j])>>)])>>, own)
                       [] OTHER -> RepReduce(rs0, g, ReduceOf(o), own)
-           IN  <<[r[1] EXCEPT !.busy = @ \ {i}], r[2]>>
+           IN  <<[r[1] EXCEPT !.busy[i] = rs.busy[i]], r[2]>>
 
 Represent(g, fx) ==
-  LET r == RepObj([ns |-> <<>>, rep |-> [i \in DOMAIN g |-> 0], busy |-> {}, err |-> "", fx |-> fx], g, 1)
+  LET r == RepObj([ns |-> <<>>, rep |-> [i \in DOMAIN g |-> 0], busy |-> [i \in DOMAIN g |-> 0], err |-> "", fx |-> fx], g, 1)
   IN  [ns |-> r[1].ns, root |-> r[2], err |-> r[1].err]
 TagKind(t) == IF t \in {"seq", "map", "set", "safe"} THEN "safe" ELSE t
 TagsOf(ns) == {TagKind(ns[n].tag) : n \in DOMAIN ns}
